@@ -130,6 +130,8 @@ def run(ctx, res):
         res.ob("R2.3", fi.where(), "end-point case split of %s" % fi.short, False, "no propositionally exhaustive split found")
         res.violation("R2.3", fi, fi.node, "the case split over `start_point in b` / `end_point in b` in %s is not exhaustive: "
                       "some combination reaches the internal raise or is unhandled" % fi.short, construct="%s case split" % fi.short)
+    from ..confinement import numeric_rejections
+    res.count("numeric rejections", numeric_rejections(ctx, res, "R2.5", hs + helpers, "flat x body handlers and hit-set helpers"))
     # R2.4 the membership tests that clip every hit (`hit in cpg`, `end point in cph`) are inclusive at the boundary
     from .c05 import r55_inclusive_thresholds
     r55_inclusive_thresholds(ctx, res, cnames=("ConvexPolygon", "ConvexPolyhedron"), rule="R2.4", minimum=2)
